@@ -130,6 +130,32 @@ theorem c12_grant_conditions {s s' : State} {m : GrantMsg} (h : exec s (.grant m
         s'.bank (SUBBASE + m.receiver) = s.bank (SUBBASE + m.receiver) + (if 0 < a.sub then a.sub else 0)) :=
   grant_conditions h
 
+/-- C12.grant_conditions, amounts (patched validation)  In every reachable state a successful grant pays exactly
+    the granted amounts, which are not negative: `a.main` to the receiver, `a.sub` to the receiver's subaccount
+    address, and the pool loses exactly `a.main + a.sub` — the amount booked as spent. -/
+theorem c12_grant_exact_fixed (bal : Nat → Int) (ops : List Op) {m : GrantMsg} {s' : State}
+    (h : exec (run (init true bal) ops) (.grant m) = .ok s') :
+    ∃ a, s'.rewards = (run (init true bal) ops).rewards ++
+          [{ uid := m.uid, creator := m.creator, receiver := m.receiver, campaign := m.campaign, amt := a }] ∧
+      0 ≤ a.main ∧ 0 ≤ a.sub ∧
+      s'.bank POOL = (run (init true bal) ops).bank POOL - (a.main + a.sub) ∧
+      (m.receiver ≠ POOL →
+        s'.bank m.receiver = (run (init true bal) ops).bank m.receiver + a.main ∧
+        s'.bank (SUBBASE + m.receiver) = (run (init true bal) ops).bank (SUBBASE + m.receiver) + a.sub) :=
+  grant_exact (poolEq_run ops (inv_init true bal) (poolEq_init true bal) (Or.inl rfl)) h
+
+/-- the same for the code as it is, for histories without negative components in campaign-creation tickets -/
+theorem c12_grant_exact_partial (bal : Nat → Int) (ops : List Op) (hn : ∀ op ∈ ops, OpNonneg op) {m : GrantMsg} {s' : State}
+    (h : exec (run (init false bal) ops) (.grant m) = .ok s') :
+    ∃ a, s'.rewards = (run (init false bal) ops).rewards ++
+          [{ uid := m.uid, creator := m.creator, receiver := m.receiver, campaign := m.campaign, amt := a }] ∧
+      0 ≤ a.main ∧ 0 ≤ a.sub ∧
+      s'.bank POOL = (run (init false bal) ops).bank POOL - (a.main + a.sub) ∧
+      (m.receiver ≠ POOL →
+        s'.bank m.receiver = (run (init false bal) ops).bank m.receiver + a.main ∧
+        s'.bank (SUBBASE + m.receiver) = (run (init false bal) ops).bank (SUBBASE + m.receiver) + a.sub) :=
+  grant_exact (poolEq_run ops (inv_init false bal) (poolEq_init false bal) (Or.inr hn)) h
+
 /-- C12.cap_account  In every reachable state a campaign with a cap count has granted each account at most that
     many rewards. -/
 theorem c12_cap_account (fixed : Bool) (bal : Nat → Int) (ops : List Op) (u a : Nat) (c : Campaign)
